@@ -122,7 +122,10 @@ func (lg *linkGen) pickIDs() []string {
 
 // scope: objects with >= 2 properties whose types may refer to each other and to themselves.
 func (lg *linkGen) scope(depth int, outer []string, allowNS bool) *lnode {
-	ids := lg.pickIDs()
+	return lg.scopeWithIDs(lg.pickIDs(), depth, outer, allowNS)
+}
+
+func (lg *linkGen) scopeWithIDs(ids []string, depth int, outer []string, allowNS bool) *lnode {
 	n := &lnode{T: "scope", Root: ids[0]}
 	for _, id := range ids {
 		n.Objs = append(n.Objs, lkid{id, lg.object(id, depth, ids, outer, allowNS, 2)})
@@ -196,13 +199,46 @@ func (lg *linkGen) objectLike(depth int, ids, outer []string, allowNS bool) *lno
 	}
 }
 
+// wrappedRef: a reference below a list, below one to three further containers (list of lists, map of
+// lists, a list inside an inline object or inside the object member of a one-of).
+func (lg *linkGen) wrappedRef(ids, outer []string, allowNS bool) *lnode {
+	r := lg.g.R
+	var n *lnode
+	if allowNS && len(lg.nss) > 0 && r.Intn(5) < 3 {
+		n = lg.nsRef()
+	} else {
+		n = lg.selfRef(ids, outer)
+	}
+	n = &lnode{T: "list", Item: n}
+	for i := r.Intn(3); i > 0; i-- {
+		switch r.Intn(4) {
+		case 0:
+			n = &lnode{T: "list", Item: n}
+		case 1:
+			n = &lnode{T: "map", K: &lnode{T: "leaf"}, V: n}
+		case 2:
+			n = &lnode{T: "obj", ID: fmt.Sprintf("W%d", r.Intn(100)), Props: []lkid{{"w", n}, {"z", &lnode{T: "leaf"}}}}
+		default:
+			n = &lnode{T: "oneOf", Disc: "_t", Members: []lkid{{"m0",
+				&lnode{T: "obj", ID: fmt.Sprintf("W%d", r.Intn(100)), Props: []lkid{{"w", n}, {"z", &lnode{T: "leaf"}}}}}}}
+		}
+	}
+	return n
+}
+
 func (lg *linkGen) ty(depth int, ids, outer []string, allowNS bool) *lnode {
 	r := lg.g.R
 	if depth >= lg.maxDeep+2 {
-		if r.Intn(2) == 0 {
+		switch {
+		case r.Intn(2) == 0:
 			return &lnode{T: "leaf"}
+		case allowNS && len(lg.nss) > 0 && r.Intn(2) == 0:
+			return lg.nsRef()
 		}
 		return lg.selfRef(ids, outer)
+	}
+	if r.Intn(8) == 0 {
+		return lg.wrappedRef(ids, outer, allowNS)
 	}
 	switch x := r.Intn(100); {
 	case x < 22:
@@ -1082,10 +1118,17 @@ func groupBehave(s *sink, g *hx.Gen) {
 			s.stats["behave:unbuildable-variant"]++
 			return
 		}
-		xa, i1, _ := s.emit(op, t, val, goVal, useGo, "class", "refs:asis:"+note)
-		xb, i2, _ := s.emit(op, ti, val, goVal, useGo, "class", "refs:inlined:"+note)
+		// a single planted fault (hx.Corruptions): the rejection must also name the same element
+		cmp := "class"
+		if note == "U-fault" || note == "V-fault" {
+			cmp = "path"
+		}
+		xa, i1, _ := s.emit(op, t, val, goVal, useGo, cmp, "refs:asis:"+note)
+		xb, i2, _ := s.emit(op, ti, val, goVal, useGo, cmp, "refs:inlined:"+note)
 		if !sameResult(xa, xb) {
 			s.finding(Finding{Prop: "C14", What: op + " differs between a scope and the same scope with references inlined (" + note + ")", Cases: []int{i1, i2}, Schema: t, Input: val, Detail: []string{xa.JSON(), xb.JSON()}})
+		} else if cmp == "path" && xa.R == "err" && !sameErrPath(xa, xb) {
+			s.finding(Finding{Prop: "C17", What: op + ": the rejection of a single fault carries another path in a scope than in the same scope with references inlined (references add no path segment)", Cases: []int{i1, i2}, Schema: t, Input: val, Detail: []string{xa.JSON(), xb.JSON()}})
 		}
 		s.stats["behave:"+note+":"+xa.R]++
 	}
